@@ -15,7 +15,7 @@ set_option linter.unusedSectionVars false
 namespace Clem.Compose
 
 section
-variable {α : Type} [Clem.T1.Num α] [Clem.T2.Num α] [Clem.T3.PyOrd α] [Clem.Py.Num α]
+variable {α : Type} [Clem.T1.Num α] [Clem.T2.Num α] [Clem.T3.PyOrd α] [Clem.Py.Num α] [Clem.Py.NumGel α]
 variable (w : World α) (c : Cfg α)
 
 /-! ## fold laws -/
@@ -70,16 +70,22 @@ theorem mem_outs {s : State α} {ts : List (TurnIn α × Oracles α)} {o : TurnO
 
 variable (s : State α) (t : TurnIn α) (o : Oracles α)
 
-theorem runTurn_t1 : (runTurn w c s t o).t1 = t1Run c.t1 (t1Graphs w) t.text s.t1c := rfl
+theorem runTurn_t1 : (runTurn w c s t o).t1 = t1Run (t1Cfg c) (t1Graphs w) t.text s.t1c := rfl
 theorem runTurn_t2 : (runTurn w c s t o).t2 = t2Of w c s t o := rfl
-theorem runTurn_t4 : (runTurn w c s t o).t4 = if c.t4Enabled then some (t4Of w c s t o) else none := rfl
-theorem runTurn_t4in : (runTurn w c s t o).t4in = if c.t4Enabled then some (t4InOf w c s t o) else none := rfl
+theorem runTurn_t4 : (runTurn w c s t o).t4 =
+    if c.t4Enabled && reach w c s t o 2 then some (t4Of w c s t o) else none := rfl
+theorem runTurn_t4in : (runTurn w c s t o).t4in =
+    if c.t4Enabled && reach w c s t o 2 then some (t4InOf w c s t o) else none := rfl
 theorem runTurn_state : (runTurn w c s t o).state = nextState w c s t o := rfl
 theorem runTurn_deltas : (runTurn w c s t o).deltas = (t4InOf w c s t o).deltas := rfl
 theorem runTurn_t2Calls : (runTurn w c s t o).t2Calls =
-    (if (t2Stage w c s t o).hit then 0 else 1) + (ragOf w c s t o).calls := rfl
+    (if reach w c s t o 0 && !(t2Stage w c s t o).hit then 1 else 0) +
+    (if reach w c s t o 2 then (ragOf w c s t o).calls else 0) := rfl
+theorem runTurn_apply : (runTurn w c s t o).apply =
+    if commits w c s t o then some (applyOf w c s t o) else none := rfl
+theorem runTurn_yielded : (runTurn w c s t o).yielded = yieldOf w c s t o := rfl
 theorem runTurn_storeCalls : (runTurn w c s t o).storeCalls =
-    if committed c t then callsOf (t4Of w c s t o).approved (applyOf w c s t o).calls else [] := rfl
+    if commits w c s t o then callsOf (t4Of w c s t o).approved (applyOf w c s t o).calls else [] := rfl
 
 theorem t4Of_eq : t4Of w c s t o = Clem.T4.t4 c.sqrt c.thr (t4InOf w c s t o) := rfl
 theorem t4InOf_k : (t4InOf w c s t o).k = c.churn := rfl
@@ -102,18 +108,18 @@ theorem t1Run_nil (c1 : Clem.T1.Cfg α) (gs : List (Clem.T1.Graph α)) (text : S
 
 /-- `x` is the T2 model's answer for some oracle entry of this world and configuration, or the empty answer -/
 def T2Good (x : Clem.T2.Out α) : Prop :=
-  x = emptyT2 c ∨ ∃ (o : Oracles α) (qo : QOracle α),
-    x = Clem.T2.t2 (t2Cfg w c o qo) c.tiers (withCos w.eps qo.cos) hOff qOff none c.residualCap (gnodes w)
+  x = emptyT2 c ∨ ∃ (o : Oracles α) (qo : QOracle α) (h : Clem.T2.HCfg α) (q : Clem.T2.QCfg α),
+    x = Clem.T2.t2 (t2Cfg w c o qo) c.tiers (withCos w.eps qo.cos) h q (t2K c) c.residualCap (gnodes w)
 
 /-- every entry of the orchestrator's cache is such an answer (true of the empty cache, kept by every turn) -/
 def GoodState (s : State α) : Prop := ∀ e ∈ s.orch, T2Good w c e.2
 
-theorem fresh_good (q : Str) : T2Good w c ((t2Call w c o q).getD (emptyT2 c)) := by
+theorem fresh_good (g : Clem.Gel.State α) (q : Str) : T2Good w c ((t2Call w c o g q).getD (emptyT2 c)) := by
   unfold t2Call
   split
   · left; rfl
   · rename_i qo _
-    right; exact ⟨o, qo, rfl⟩
+    right; exact ⟨o, qo, hybOf c g, qualOf c qo, rfl⟩
 
 theorem t2Stage_good (hs : GoodState w c s) :
     T2Good w c (t2Stage w c s t o).out ∧ ∀ e ∈ (t2Stage w c s t o).orch, T2Good w c e.2 := by
@@ -123,13 +129,13 @@ theorem t2Stage_good (hs : GoodState w c s) :
   · split
     · rename_i e he
       exact ⟨hs e (List.mem_of_find?_eq_some he), hs⟩
-    · refine ⟨fresh_good w c o _, ?_⟩
+    · refine ⟨fresh_good w c o _ _, ?_⟩
       intro e he
       rcases List.mem_append.1 he with h | h
       · exact hs e h
       · rw [List.mem_singleton] at h
-        rw [h]; exact fresh_good w c o _
-  · exact ⟨fresh_good w c o _, hs⟩
+        rw [h]; exact fresh_good w c o _ _
+  · exact ⟨fresh_good w c o _ _, hs⟩
 
 theorem t2Of_good (hs : GoodState w c s) : T2Good w c (t2Of w c s t o) := (t2Stage_good w c s t o hs).1
 
@@ -138,8 +144,10 @@ theorem nextState_good (hs : GoodState w c s) : GoodState w c (nextState w c s t
   have he' : e ∈ orchNext w c s t o := he
   unfold orchNext at he'
   split at he'
-  · cases he'
-  · exact (t2Stage_good w c s t o hs).2 e he'
+  · exact hs e he'
+  · split at he'
+    · cases he'
+    · exact (t2Stage_good w c s t o hs).2 e he'
 
 /-- the deltas T4 sees are the planner hook's, or none (stock planner / refined plan / T3 skipped) -/
 theorem t4_deltas_from_hook : (t4InOf w c s t o).deltas = t.hookDeltas ∨ (t4InOf w c s t o).deltas = [] := by
@@ -192,31 +200,102 @@ theorem calls_once (ap : List (Clem.T4.Delta α)) (n : Nat) :
   rw [filterMap_range_getElem?]
 
 theorem nextState_ver : (nextState w c s t o).ver =
-    if committed c t then .num (Clem.Apply.bump s.ver) else s.ver := rfl
+    if commits w c s t o then .num (Clem.Apply.bump s.ver) else s.ver := rfl
 
 /-! ## versions over a history -/
 
-def committedTurns (c : Cfg α) (ts : List (TurnIn α × Oracles α)) : Nat :=
-  (ts.filter (fun t => committed c t.1)).length
+/-- number of turns of the history that hand their approved list to Apply (gates open, no yield before Apply) -/
+def commitCount : State α → List (TurnIn α × Oracles α) → Nat
+  | _, [] => 0
+  | s, t :: ts => (if commits w c s t.1 t.2 then 1 else 0) + commitCount (runTurn w c s t.1 t.2).state ts
 
 theorem version_history (s : State α) (ts : List (TurnIn α × Oracles α)) (v : Int) (h : s.ver = .num v) :
-    (runTurns w c s ts).state.ver = .num (v + committedTurns c ts) := by
+    (runTurns w c s ts).state.ver = .num (v + commitCount w c s ts) := by
   induction ts generalizing s v with
-  | nil => simp [runTurns_nil, committedTurns, h]
+  | nil => simp [runTurns_nil, commitCount, h]
   | cons t ts ih =>
     rw [runTurns_cons]
     dsimp only
-    by_cases hc : committed c t.1 = true
+    by_cases hc : commits w c s t.1 t.2 = true
     · have h1 : (runTurn w c s t.1 t.2).state.ver = .num (v + 1) := by
         rw [runTurn_state, nextState_ver, if_pos hc, h]; rfl
       rw [ih _ (v + 1) h1]
-      simp only [committedTurns, List.filter_cons, hc, if_true, List.length_cons]
+      simp only [commitCount, hc, if_true]
       congr 1; push_cast; ring
     · have h1 : (runTurn w c s t.1 t.2).state.ver = .num v := by
         rw [runTurn_state, nextState_ver, if_neg hc, h]
       rw [ih _ v h1]
-      simp only [committedTurns, List.filter_cons, hc]
-      rfl
+      simp only [commitCount, hc]
+      congr 1; push_cast; ring
+
+/-- … which is the number of turn outputs with an apply record -/
+theorem commitCount_eq_applies (s : State α) (ts : List (TurnIn α × Oracles α)) :
+    commitCount w c s ts = ((runTurns w c s ts).outs.filter (fun o => o.apply.isSome)).length := by
+  induction ts generalizing s with
+  | nil => rfl
+  | cons t ts ih =>
+    rw [runTurns_cons]
+    simp only [commitCount, List.filter_cons, runTurn_apply]
+    rw [ih]
+    by_cases hc : commits w c s t.1 t.2 = true
+    · simp [hc]; omega
+    · simp [hc]
+
+/-- scheduler off: nothing yields, every boundary is passed -/
+theorem yieldOf_sched_off (s : State α) (t : TurnIn α) (o : Oracles α) (h : c.sched = none) :
+    yieldOf w c s t o = none := by
+  unfold yieldOf; rw [h]
+
+theorem reach_sched_off (s : State α) (t : TurnIn α) (o : Oracles α) (h : c.sched = none) (k : Nat) (hk : k < 5) :
+    reach w c s t o k = true := by
+  unfold reach yr
+  rw [yieldOf_sched_off w c s t o h]
+  simpa using hk
+
+/-! ## GEL: the store after any turn is `Clem.Gel.run` of a list of C18's operations -/
+
+theorem gel_run_append (g : Clem.Gel.State α) (a b : List (Clem.Gel.Op α)) :
+    Clem.Gel.run c.gel c.pw g (a ++ b) = Clem.Gel.run c.gel c.pw (Clem.Gel.run c.gel c.pw g a) b := by
+  unfold Clem.Gel.run; rw [List.foldl_append]
+
+theorem nextState_gel (s : State α) (t : TurnIn α) (o : Oracles α) :
+    (nextState w c s t o).gel = Clem.Gel.run c.gel c.pw s.gel (gelOps w c s t o) := rfl
+
+/-- with promotions off the turn issues no `promote` operation -/
+theorem gelOps_no_promote (s : State α) (t : TurnIn α) (o : Oracles α) (h : c.doPromo = false) :
+    ∀ p, Clem.Gel.Op.promote p ∉ gelOps w c s t o := by
+  intro p hp
+  unfold gelOps gelObsOps gelTickOps gelMaintOps gelPromos at hp
+  rw [h] at hp
+  simp only [Bool.false_eq_true, if_false, Clem.Gel.pySlice, List.take_nil, List.map_nil, List.append_nil,
+    ite_self] at hp
+  rcases List.mem_append.1 hp with h1 | h1
+  · rcases List.mem_append.1 h1 with h2 | h2
+    · split at h2 <;> simp at h2
+    · split at h2 <;> simp at h2
+  · split at h1
+    · rcases List.mem_append.1 h1 with h2 | h2 <;> simp at h2
+    · cases h1
+
+/-- every output of a history carries a GEL store reached from the initial one by C18 operations
+(without `promote` when promotions are off) -/
+theorem mem_outs_gel {s : State α} {ts : List (TurnIn α × Oracles α)} {o : TurnOut α}
+    (h : o ∈ (runTurns w c s ts).outs) :
+    ∃ ops, o.state.gel = Clem.Gel.run c.gel c.pw s.gel ops ∧
+      (c.doPromo = false → ∀ p, Clem.Gel.Op.promote p ∉ ops) := by
+  induction ts generalizing s with
+  | nil => simp [runTurns_nil] at h
+  | cons t ts ih =>
+    rw [runTurns_cons] at h
+    rcases List.mem_cons.1 h with h | h
+    · exact ⟨gelOps w c s t.1 t.2, by rw [h, runTurn_state, nextState_gel], gelOps_no_promote w c s t.1 t.2⟩
+    · obtain ⟨ops, he, hn⟩ := ih h
+      refine ⟨gelOps w c s t.1 t.2 ++ ops, ?_, ?_⟩
+      · rw [he, runTurn_state, nextState_gel, gel_run_append]
+      · intro hp p hm
+        rcases List.mem_append.1 hm with h1 | h1
+        · exact gelOps_no_promote w c s t.1 t.2 hp p h1
+        · exact hn hp p h1
 
 /-- every output of a history started in a good state is `runTurn` of some turn on some GOOD state -/
 theorem mem_outs_good {s : State α} {ts : List (TurnIn α × Oracles α)} {o : TurnOut α}
